@@ -10,6 +10,7 @@ import (
 
 	"github.com/DataDog/zstd"
 	"github.com/mimecast/dtail/internal/config"
+	"github.com/mimecast/dtail/verif/explore"
 	"github.com/mimecast/dtail/verif/vos"
 	"github.com/mimecast/dtail/verif/vrt"
 )
@@ -25,6 +26,12 @@ type c01Case struct {
 	// SlowReadMs makes every read(2) of the file take that long (virtual time):
 	// the read then spans dtail's periodic (3 s) truncation check.
 	SlowReadMs int `json:"slow_read_ms,omitempty"`
+	// StallMs: the consumer of dcat's stdout (a pipe) reads nothing for that long after the first
+	// write; meanwhile the transport is blocked between two reads from the server handler.
+	StallMs int `json:"consumer_stall_ms,omitempty"`
+	// TransportMs: the transport takes that long (virtual time) before every read from the server
+	// handler, as an SSH channel with a full window does
+	TransportMs int `json:"transport_ms_per_read,omitempty"`
 }
 
 // c01Split is the statement's reference: a newline is inserted after each run
@@ -90,17 +97,41 @@ func c01Run(c *Ctx, cs c01Case, content []byte) {
 		args.Plain = true
 		args.What = path
 		args.LogLevel = cs.LogLevel
-		got = RunClientBody(ClientOpts{Kind: "cat", Args: args, Mutate: func() {
+		o := ClientOpts{Kind: "cat", Args: args}
+		if cs.StallMs > 0 {
+			o.Consumer = func(pipe *vrt.Chan[string], sink *vrt.StdoutSink) {
+				n := 0
+				for {
+					s, ok := pipe.Recv2("consumer")
+					if !ok {
+						return
+					}
+					sink.Buf.WriteString(s)
+					n++
+					if n == 1 {
+						vrt.Sleep("consumer-stall", time.Duration(cs.StallMs)*time.Millisecond)
+					}
+				}
+			}
+		}
+		o.Mutate = func() {
 			config.Server.MaxLineLength = cs.M
+			if cs.TransportMs > 0 {
+				vrt.OnHook[c01ReadHook] = func(interface{}) {
+					vrt.Sleep("transport", time.Duration(cs.TransportMs)*time.Millisecond)
+				}
+			}
 			if cs.SlowReadMs > 0 {
 				vos.S.ReadDelay = time.Duration(cs.SlowReadMs) * time.Millisecond
 				vos.S.ReadDelayPrefix = Scratch() + "/c01/"
 			}
-		}})
+		}
+		got = RunClientBody(o)
 	})
+	delete(vrt.OnHook, c01ReadHook)
 	key := ""
 	if len(content) > 0 {
-		key = fmt.Sprintf("%s|%s|%d|%s|%s|%d", cs.Content, cs.Desc, cs.M, cs.Encoding, cs.LogLevel, cs.SlowReadMs)
+		key = fmt.Sprintf("%s|%s|%d|%s|%s|%d|%d", cs.Content, cs.Desc, cs.M, cs.Encoding, cs.LogLevel, cs.SlowReadMs, cs.StallMs+1000000*cs.TransportMs)
 	}
 	c.Count(key)
 	show := func(b []byte) string {
@@ -179,6 +210,29 @@ func c01Cases(thorough bool, emit func(cs c01Case, content []byte)) {
 				b.WriteString("\n")
 			}
 			emit(c01Case{Desc: fmt.Sprintf("lines of 40000, 50000 and 33000 bytes among short lines, final newline %v", nl), M: m, LogLevel: "error"}, b.Bytes())
+			// the same with a slow disk and a consumer that stalls: the reader is still working (and re-using
+			// pooled buffers) while the transport sits between two reads of one over-long message
+			for _, rd := range []int{0, 5} {
+				for _, st := range []int{200, 3000} {
+					emit(c01Case{Desc: fmt.Sprintf("lines of 40000, 50000 and 33000 bytes among short lines, final newline %v", nl), M: m, LogLevel: "error", SlowReadMs: rd, StallMs: st}, b.Bytes())
+				}
+				for _, tr := range []int{1, 100} {
+					emit(c01Case{Desc: fmt.Sprintf("lines of 40000, 50000 and 33000 bytes among short lines, final newline %v", nl), M: m, LogLevel: "error", SlowReadMs: rd, TransportMs: tr}, b.Bytes())
+				}
+			}
+		}
+	}
+	// many consecutive over-long lines, disk and transport speeds in every combination: the reader is at
+	// work on later lines (re-using pooled buffers) while earlier ones are between two transport reads
+	{
+		var b bytes.Buffer
+		for i := 0; i < 8; i++ {
+			b.WriteString(strings.Repeat(string(rune('A'+i)), 40000+3000*(i%4)) + "\n")
+		}
+		for _, rd := range []int{1, 5, 20} {
+			for _, tr := range []int{5, 20, 100} {
+				emit(c01Case{Desc: "8 consecutive lines of 40000..49000 bytes", M: 100000, LogLevel: "error", SlowReadMs: rd, TransportMs: tr}, b.Bytes())
+			}
 		}
 	}
 	// long-line family
@@ -225,6 +279,55 @@ func c01Cases(thorough bool, emit func(cs c01Case, content []byte)) {
 	}
 }
 
+// c01Schedules: a file with several lines longer than the transport buffer, read from a slow disk,
+// under all schedules within one deviation (incl. a transport goroutine that is delayed between two
+// reads of one over-long message while the file reader keeps working and re-using pooled buffers).
+const c01ReadHook = "internal/server/handlers.baseHandler.Read"
+
+func c01Schedules(c *Ctx) {
+	content := "short1\n" + strings.Repeat("A", 40000) + "\n" + strings.Repeat("B", 50000) + "\n" + strings.Repeat("C", 45000) + "\nshort2\n"
+	path := c01WriteFile(fmt.Sprintf("sched-%d.txt", c.Shard), []byte(content), "")
+	sc := &explore.Scenario{Name: "c01-schedules", Params: "3 lines > 32 KiB, 5 ms per read(2)", MaxSteps: 2000000, Horizon: 10 * time.Minute, Demotion: true, LongDemotion: true}
+	sc.Run = func(cfg vrt.Config) (string, string, vrt.Result) {
+		var got ClientResult
+		res := vrt.Run(cfg, func() {
+			args := DefaultArgs()
+			args.Plain = true
+			args.What = path
+			args.LogLevel = "error"
+			got = RunClientBody(ClientOpts{Kind: "cat", Args: args, Mutate: func() {
+				config.Server.MaxLineLength = 100000
+				vos.S.ReadDelay = 5 * time.Millisecond
+				vos.S.ReadDelayPrefix = Scratch() + "/c01/"
+			}})
+		})
+		if res.Fail != nil {
+			return "fail:" + res.Fail.Kind, res.Fail.Error(), res
+		}
+		if got.Stdout != content || got.Status != 0 {
+			i := 0
+			for i < len(got.Stdout) && i < len(content) && got.Stdout[i] == content[i] {
+				i++
+			}
+			return "differs", fmt.Sprintf("file with lines of 40000, 50000 and 45000 bytes read from a slow disk: dcat --plain printed %d bytes (status %d), want %d; first difference at offset %d", len(got.Stdout), got.Status, len(content), i), res
+		}
+		return "ok", "", res
+	}
+	sc.Filter = func(pt *vrt.Point, alt int) bool {
+		if pt.Alts[alt].Kind != vrt.AltRun {
+			return true
+		}
+		o := pt.Infos[alt].Obj
+		return strings.Contains(o, "lines@") || strings.Contains(o, "rawLines") || strings.Contains(o, "serverMessages")
+	}
+	c.Explore(sc, 1, func(msg string, v *explore.Violation) string {
+		if strings.HasPrefix(msg, "panic") {
+			return "panic"
+		}
+		return "output-differs-under-some-schedule"
+	})
+}
+
 func init() {
 	Register(&Check{
 		ID:    "C01",
@@ -235,9 +338,10 @@ func init() {
 			"oracle: stdout == content with a newline inserted after every M consecutive non-newline bytes, exit status 0; non-trivial = non-empty content",
 		Assumptions: []string{
 			"serverless wiring (client handler <-> server handler through the real io.Copy loops of connectors.Serverless); the SSH transport is a byte stream and is covered by C02/C07's segmented wiring",
-			"canonical schedule (C02 explores schedules)",
+			"canonical schedule for the input families (C02 explores schedules); one family (three over-long lines, slow disk) is explored under all schedules within one deviation",
 		},
 		Run: func(c *Ctx) {
+			c01Schedules(c)
 			c01Cases(c.Thorough(), func(cs c01Case, content []byte) {
 				if !c.Mine() || c.Expired() {
 					return
